@@ -121,6 +121,7 @@ type VC struct {
 	safetyProp     bool
 	axiomText      string
 	quickMs        int
+	slowFails      int32 // obligations of this unit that failed the raced slow path so far (see Discharge)
 	parent         *VC
 	depth          int
 	inlined        map[string]bool
@@ -2262,6 +2263,14 @@ func (vc *VC) GenerateLemmas(lemmas []*Clause) (err error) {
 		}
 		if l.Kind == "nocall" {
 			obls, err := vc.P.EvalNoCallClause(l, vc.key)
+			if err != nil {
+				return err
+			}
+			vc.obls = append(vc.obls, obls...)
+			continue
+		}
+		if l.Kind == "noeq" {
+			obls, err := vc.P.EvalNoEqClause(l, vc.key)
 			if err != nil {
 				return err
 			}
